@@ -60,7 +60,8 @@ def algo_cases(draw):
     algo = draw(st.sampled_from(["maxsum", "dsatuto"]))
     desc = draw(gen.dcops(min_vars=1, max_vars=5, min_dom=1, max_dom=3, max_constraints=5, arities=(1, 2, 2, 3),
                           var_costs=(algo == "maxsum"), costs=gen.small_int_costs, objectives=("min",)))
-    return {"target": algo, "dcop": desc, "schedule": draw(gen.schedules(150)), "seed": draw(st.integers(0, 1000))}
+    return {"target": algo, "dcop": desc, "schedule": draw(gen.schedules(150)), "seed": draw(st.integers(0, 1000)),
+            "start_messages": draw(st.sampled_from(["leafs", "leafs_vars", "all"]))}
 
 
 def case_strategy(tier):
@@ -199,7 +200,8 @@ def run_algo(case):
 
         r.net.after_step = after
 
-    params = {"damping": 0.0, "noise": 0.0} if algo == "maxsum" else {}
+    params = {"damping": 0.0, "noise": 0.0, "start_messages": case.get("start_messages", "leafs")} \
+        if algo == "maxsum" else {}
     r = localsearch.run_algo(desc, algo, params, case["schedule"], case["seed"], max_steps=200000, before_run=prep)
     net = r.net
     nb = {n: list(c.neighbors) for n, c in r.comps.items()}
